@@ -13,6 +13,10 @@ pub mod c13;
 pub mod c14;
 pub mod c17;
 pub mod c18;
+pub mod c20;
+pub mod c21;
+pub mod c22;
+pub mod c23;
 pub mod c24;
 pub mod c25;
 pub mod c26;
@@ -21,6 +25,7 @@ pub mod c29;
 pub mod c32;
 pub mod c35;
 pub mod crash;
+pub mod exprlib;
 
 pub struct Entry {
     pub id: &'static str,
@@ -42,6 +47,10 @@ pub const REGISTRY: &[Entry] = &[
     Entry { id: "C14", level: "exploration", run: c14::run },
     Entry { id: "C17", level: "fault_enumeration", run: c17::run },
     Entry { id: "C18", level: "exploration", run: c18::run },
+    Entry { id: "C20", level: "exploration", run: c20::run },
+    Entry { id: "C21", level: "exploration", run: c21::run },
+    Entry { id: "C22", level: "exploration", run: c22::run },
+    Entry { id: "C23", level: "exploration", run: c23::run },
     Entry { id: "C24", level: "exploration", run: c24::run },
     Entry { id: "C25", level: "exploration", run: c25::run },
     Entry { id: "C26", level: "exploration", run: c26::run },
